@@ -4,5 +4,5 @@ CONSTANTS Classes = {"nonjson", "empty", "jnum", "jstr", "jnull", "jtrue", "jlis
                      "dstr", "dlist", "dhuge", "ddict", "dok"}
           PopLow = 2
           PopHigh = 2
-          OneStep = 1
+          OneStep = 2
 INVARIANT SpecSane
